@@ -109,7 +109,7 @@ def run(shard, tier, seed):
     def prop(rnd, cfg, nb, saturate):
         res.count("histories")
         pre = "s%dh%d_%d_" % (shard["i"], res.counters["histories"], seed)
-        case = chainexec.gen_case(rnd, cfg, nb, 0.0, ["C01"], prefix=pre, p_tx=0.85,
+        case = chainexec.gen_case(rnd, cfg, nb, 0.0, ["C01"], prefix=pre, p_tx=0.85, zero_rewards=True, p_unusual=0.35,
                                   dts=[1_000_000, 1_000_000, 10_000] if saturate else None)
         r = chainexec.Run(case, ("C06",))
         r.execute()
@@ -120,6 +120,11 @@ def run(shard, tier, seed):
         cands = [o for o in case["ops"] if o["label"] in r.world.blocks]
         cands.sort(key=lambda o: (-len(r.world.blocks[o["label"]].txs), -int.from_bytes(r.world.blocks[o["label"]].target, "big")))
         picked = cands[:1] + rnd.sample(cands[1:], min(len(cands) - 1, per_hist - 1))
+        # a block that consists of a reward without outputs ends in a zero length octet: always included when there is one
+        bare = [o for o in cands if len(r.world.blocks[o["label"]].txs) == 1 and not r.world.blocks[o["label"]].txs[0].outs and o not in picked]
+        if bare:
+            picked.append(bare[0])
+            res.count("blocks_reward_without_outputs")
         for o in picked:
             blk = r.world.blocks[o["label"]]
             sat = int.from_bytes(blk.target, "big") >= R.TWO256 - 1
